@@ -222,6 +222,16 @@ def run_case(case: dict) -> Result:
             if a.refusal_documented and isinstance(raised, ValueError):
                 classes.add('documented-refusal')
                 break
+            if isinstance(raised, ArithmeticError):
+                # a keyed read-and-remove of a value that cannot be evaluated (1 / 0): raising is legitimate, removing the item on the way is not
+                try:
+                    raw_now2 = list(getattr(P, rawname))
+                except Exception:  # noqa: BLE001
+                    raw_now2 = None
+                if raw_now2 is None or not same_list(raw_now2, raw_before):
+                    res.bad(f'changed-although-raised:{a.family}:{a.shape}:{type(raised).__name__}',
+                            f'{what} on {type(P).__name__}.{a.prop} raised {raised!r} (the value does not evaluate) but the list changed: {_show(raw_before)} -> {_show(raw_now2 or [])}')
+                break
             res.bad(f'unexpected-error:{a.family}:{a.shape}:{type(raised).__name__}',
                     f'{what} on {type(P).__name__}.{a.prop} (content {_show(a.ref.get("cur", []))}) raised {raised!r}; a list accepts it')
             break
